@@ -152,8 +152,11 @@ def run(ctx, eng):
     # maximum and on no other
     gk = cm.mk_aff_key('>', {'self.current_window_size': 1, 'size': 1,
                              'self.max_window_size': -1}, 0)
+    # (`>=` is the same decision: at equality the write changes nothing)
+    ge = cm.mk_aff_key('>=', {'self.current_window_size': 1, 'size': 1,
+                              'self.max_window_size': -1}, 0)
     grew = bool(mx) and all(
-        (gk in cm.assume_keys(p)) == any(
+        bool({gk, ge} & set(cm.assume_keys(p))) == any(
             e.kind == 'write' and e.attr == 'max_window_size'
             for e in p.events) for p in cm.normal_paths(paths))
     ctx.ob('ARITH.open', f4.qual, 'maximum follows a larger window', ok and
